@@ -15,6 +15,7 @@ import builtins
 import dataclasses
 import itertools
 import json
+import re
 import sys
 import types
 import weakref
@@ -339,18 +340,22 @@ RISKY_CLASSES = {'synth-module-global': ['Any', 'types', 'annotations', 'synthes
 RISKY_SHAPES = ['typed-rule-over-untyped-named-ast']
 FIXED_SENTENCES = ['(1,a)', '((1,2),[a (b,3)])', '-(1,2)', '[(a,b) -c]', '(-a,(b,c)) 7']
 BUILTINS = ['int', 'float', 'str', 'bool']
+HIER_EXTRA = ['B1', 'B2', 'Root', 'Mid']
 
 
 class GrammarCase:
     """One generated grammar: rules over the alphabet ( ) [ ] < > { } - digits letters."""
 
-    def __init__(self, rng, idx, risky=None):
+    def __init__(self, rng, idx, risky=None, forest=False):
         self.rng = rng
         self.idx = idx
         self.risky = risky            # None | ('attr', class, name) | ('class', class, name)
+        self.forest = forest and not risky   # the classes of all rules form ONE declared forest (see plan_forest)
         self.tag = f'{RUN}G{idx}x'
         self.used_attrs: list[str] = []
+        self.plan: dict = {}
         self.build()
+        self.read_declarations()
 
     def cname(self, base):
         return f'{self.tag}{base}'
@@ -361,7 +366,39 @@ class GrammarCase:
         self.used_attrs.append(a)
         return a
 
+    def plan_forest(self, rule_classes, named):
+        """One declared class forest over the classes of the typed rules and a few classes that no rule builds
+        (B1 B2 Root Mid): any class may derive from any other (a rule's class from another rule's class, from a
+        rule-less class, a rule-less class from a rule's class ...).  A rule without named elements keeps its value
+        in .ast, so its class never derives from a class that has dataclass fields (see notes: observation)."""
+        rng = self.rng
+        order = list(rule_classes) + HIER_EXTRA
+        rng.shuffle(order)
+        parent: dict = {}
+        fields: dict = {}
+        depth: dict = {}
+        for i, c in enumerate(order):
+            cands = [p for p in order[:i] if depth[p] < 3]
+            if c in rule_classes and c not in named:
+                cands = [p for p in cands if not fields[p]]
+            p = rng.choice(cands) if cands and rng.random() < 0.75 else None
+            parent[c] = p
+            depth[c] = 0 if p is None else depth[p] + 1
+            fields[c] = c in named or (p is not None and fields[p])
+        return parent
+
     def spec(self, base, allow_chain=True):
+        if self.forest:
+            # a prefix of the class's chain in the planned forest: the whole chain, the class with its direct base,
+            # the bare name (its base is then declared by another rule's chain only), or something in between
+            full = [base]
+            while self.plan.get(full[-1]):
+                full.append(self.plan[full[-1]])
+            k = len(full)
+            r = self.rng.random()
+            if k > 1 and r >= 0.45:
+                k = 2 if r < 0.8 else (1 if r < 0.9 else self.rng.randint(1, k))
+            return '::'.join(self.cname(n) for n in full[:k])
         # every intermediate class is always declared with the same bases inside one grammar
         # (B1 under Root, B2 directly under the base type); redeclaration is the subject of R1
         r = self.rng.random()
@@ -389,7 +426,26 @@ class GrammarCase:
         a_items, a_l, a_r, a_el, a_a, a_b, a_c, a_v, a_in = (self.attr() for _ in range(9))
         if self.risky and self.risky[0] == 'attr':
             a_l = self.risky[2]
+        wrap_class = 'Wrap'
+        if self.forest:
+            if self.have_wrap and self.neg_typed and rng.random() < 0.3:
+                # two rules build the same class (same named element), each with its own prefix of the chain
+                wrap_class, a_in = 'Neg', a_v
+            typed = {'Prog': self.start_typed, 'Item': self.item_typed, 'Pair': True, 'Group': True,
+                     'Word': self.word_typed, 'Neg': self.neg_typed, 'Opt': self.have_opt,
+                     'Wrap': self.have_wrap and wrap_class == 'Wrap'}
+            named = {'Pair', 'Neg', 'Opt', 'Wrap'} | ({'Prog'} if self.start_named else set()) \
+                | ({'Group'} if self.group_style in ('named', 'namedlist') else set())
+            self.plan = self.plan_forest([c for c, t in typed.items() if t], named)
         self.attrs = dict(items=a_items, l=a_l, r=a_r, el=a_el, a=a_a, b=a_b, c=a_c, v=a_v, inner=a_in)
+        # named elements per class (base names) of the typed rules
+        self.rule_attrs = {'Pair': {a_l, a_r}, 'Opt': {a_a, a_b, a_c}}
+        self.rule_attrs.setdefault(wrap_class, set()).add(a_in)
+        self.rule_attrs.setdefault('Neg', set()).add(a_v)
+        if self.start_named:
+            self.rule_attrs['Prog'] = {a_items}
+        if self.group_style in ('named', 'namedlist'):
+            self.rule_attrs['Group'] = {a_el}
         pair_spec = self.spec('Pair')
         if self.risky and self.risky[0] == 'class':
             pair_spec = self.risky[2]
@@ -420,17 +476,64 @@ class GrammarCase:
         else:
             lines.append(f"group::{gs} = '[' {{ {a_el}+:item }} ']' ;")
         lines.append(f'num::{self.builtin} = /\\d+/ ;')
-        wt = f'::{self.spec("Word", allow_chain=False)}' if self.word_typed else ''
+        wt = f'::{self.spec("Word", allow_chain=self.forest)}' if self.word_typed else ''
         lines.append(f'word{wt} = /[a-z]+/ ;')
         nt = f'::{self.spec("Neg")}' if self.neg_typed else ''
         lines.append(f"neg{nt} = '-' {a_v}:item ;")
         if self.have_opt:
             lines.append(f"opt::{self.spec('Opt')} = '<' {a_a}:[ word ] {a_b}+:num {a_c}:{{ pair }} '>' ;")
         if self.have_wrap:
-            lines.append(f"wrap::{self.spec('Wrap')} = '{{' {a_in}:neg '}}' ;")
+            lines.append(f"wrap::{self.spec(wrap_class)} = '{{' {a_in}:neg '}}' ;")
         if self.tuple_rule:
             lines.append("tup::tuple = '!' { num }+ ;")
+        if self.forest:
+            # the order of the rule definitions decides nothing for the parse, but it is the order in which the
+            # model generator meets the chains
+            rest = lines[2:]
+            rng.shuffle(rest)
+            lines = lines[:2] + rest
         self.text = '\n'.join(lines) + '\n'
+
+    def read_declarations(self):
+        """The class declarations of the grammar, read back from its text: chains in rule order, the declared direct
+        base of every class (the successor of the name in any chain; the generator writes consistent grammars: one
+        successor per name) and whether a class is built by a rule."""
+        self.chains: list = []              # (rule name, [class names]) in the order of the text
+        for line in self.text.split('\n'):
+            m = re.match(r'(\w+)::([\w:]+) = ', line)
+            if not m:
+                continue
+            chain = [mangle(n) for n in m.group(2).split('::')]
+            if chain[0] in vars(builtins):
+                continue
+            self.chains.append((m.group(1), chain))
+        self.parent: dict = {}
+        self.consistent = True
+        for _, chain in self.chains:
+            for a, b in zip(chain, chain[1:]):
+                if self.parent.setdefault(a, b) != b:
+                    self.consistent = False
+        self.declared = []
+        for _, chain in self.chains:
+            for n in chain:
+                if n not in self.declared:
+                    self.declared.append(n)
+
+    def ancestors(self, name):
+        out = []
+        while name in self.parent and self.parent[name] not in out and len(out) < 20:
+            name = self.parent[name]
+            out.append(name)
+        return out
+
+    def inherited_fields(self, clsname):
+        """named elements of the rules that build a declared ancestor of the class (dataclass fields a generated class
+        inherits; on a node of the derived class they are None)"""
+        own = self.rule_attrs.get(clsname[len(self.tag):], set())
+        out: set = set()
+        for a in self.ancestors(clsname):
+            out |= self.rule_attrs.get(a[len(self.tag):], set())
+        return out - own
 
     def sentence(self, rng, depth):
         def item(d):
@@ -493,28 +596,34 @@ def canon_model(v):
     return ['?', type(v).__name__]
 
 
-def expect_from_marks(v):
-    """the canonical model tree that the property prescribes for a traced derivation"""
-    if isinstance(v, Mark):
-        names_ = [mangle(s) for s in v.spec.split('::')]
-        head = names_[0]
-        inner = v.ast
-        if head in vars(builtins):
-            fn = vars(builtins)[head]
-            if isinstance(inner, (list, tuple)):
-                return ['tuple', [expect_from_marks(x) for x in fn(inner)]] if fn is tuple else ['?', head]
-            val = fn(inner)
-            return [type(val).__name__, val]
-        if isinstance(inner, dict):
-            return ['node', head, names_ + BASE_MRO, {k: expect_from_marks(x) for k, x in inner.items()}, ['NoneType', None]]
-        return ['node', head, names_ + BASE_MRO, {}, expect_from_marks(inner)]
-    if isinstance(v, Mapping):
-        return {k: expect_from_marks(x) for k, x in v.items()}
-    if isinstance(v, tuple):
-        return ['tuple', [expect_from_marks(x) for x in v]]
-    if isinstance(v, list):
-        return [expect_from_marks(x) for x in v]
-    return [type(v).__name__, v]
+def expect_from_marks(v, ancestors=None):
+    """the canonical model tree that the property prescribes for a traced derivation; `ancestors`: class name -> the
+    base classes declared for it by the grammar as a whole (a chain may stop at a class whose own bases are declared by
+    another rule); without it the rule's own chain"""
+    def go(v):
+        if isinstance(v, Mark):
+            names_ = [mangle(s) for s in v.spec.split('::')]
+            head = names_[0]
+            inner = v.ast
+            if head in vars(builtins):
+                fn = vars(builtins)[head]
+                if isinstance(inner, (list, tuple)):
+                    return ['tuple', [go(x) for x in fn(inner)]] if fn is tuple else ['?', head]
+                val = fn(inner)
+                return [type(val).__name__, val]
+            if ancestors is not None:
+                names_ = [head] + ancestors(head)
+            if isinstance(inner, dict):
+                return ['node', head, names_ + BASE_MRO, {k: go(x) for k, x in inner.items()}, ['NoneType', None]]
+            return ['node', head, names_ + BASE_MRO, {}, go(inner)]
+        if isinstance(v, Mapping):
+            return {k: go(x) for k, x in v.items()}
+        if isinstance(v, tuple):
+            return ['tuple', [go(x) for x in v]]
+        if isinstance(v, list):
+            return [go(x) for x in v]
+        return [type(v).__name__, v]
+    return go(v)
 
 
 def erase_marks(v):
@@ -660,10 +769,150 @@ def check_navigation_root(root) -> list[str]:
     return sorted(set(fails))
 
 
+# ------------------------------------------------------------------ H1: the class hierarchy of the generated module
+# Oracle written from the property text: the classes of the generated model module have the base classes the grammar
+# declares.  The declarations of a grammar are its chains `A::B::C` (A derives from B, B from C); a chain may stop at a
+# class whose own base is declared by another rule (`x::X::Base` and `y::Y::X`): the declared ancestors of a class are
+# what all the chains together say.  Nothing here looks at how the generator computes the bases.
+def chain_parents(chains):
+    parent: dict = {}
+    for _, chain in chains:
+        for a, b in zip(chain, chain[1:]):
+            parent.setdefault(a, b)
+    return parent
+
+
+def chain_ancestors(parent, name):
+    out = []
+    while name in parent and parent[name] not in out and len(out) < 20:
+        name = parent[name]
+        out.append(name)
+    return out
+
+
+def hierarchy_shape(n, chains, parent):
+    """shape class of a declared class: who builds it, how its base is declared, where chains stop at it"""
+    own = [c for _, c in chains if c[0] == n]
+    if n not in parent:
+        kind = 'rule-class-without-base' if own else 'nonrule-root-class'
+    elif not own:
+        kind = 'nonrule-class'
+    elif any(len(c) == 1 for c in own):
+        kind = 'rule-class-bare-in-own-rule'
+    else:
+        kind = 'rule-class-own-chain'
+    decl = [i for i, (_, c) in enumerate(chains) if n in c[:-1]]
+    stops = [i for i, (_, c) in enumerate(chains) if c[-1] == n]
+    if not decl or not stops:
+        pos = 'no-chain-stops-at-it'
+    elif max(stops) > decl[0]:
+        pos = 'a-later-chain-stops-at-it'
+    else:
+        pos = 'an-earlier-chain-stops-at-it'
+    return f'{kind}:{pos}'
+
+
+def hierarchy_failures(module_vars, chains):
+    """[(signature, class, got, want)] for the declared classes whose OWN bases in the generated module are not the
+    declared ones (a class that only inherits the damage of its base is not listed)"""
+    parent = chain_parents(chains)
+    declared = []
+    for _, c in chains:
+        declared += [n for n in c if n not in declared]
+    out = []
+    for n in declared:
+        want = chain_ancestors(parent, n)
+        cls = module_vars.get(n)
+        if not isinstance(cls, type):
+            out.append((f'genmodel-bases:class-missing:{hierarchy_shape(n, chains, parent)}', n, None, want))
+            continue
+        got = [c.__name__ for c in cls.__mro__[1:] if c.__name__ in declared]
+        own_got = [b.__name__ for b in cls.__bases__ if b.__name__ in declared]
+        own_want = [parent[n]] if n in parent else []
+        if got == want or own_got == own_want:
+            continue
+        if any(w not in own_got for w in own_want):
+            fail = 'base-lost' if not own_got else 'base-replaced'
+        else:
+            fail = 'base-extra'
+        out.append((f'genmodel-bases:{fail}:{hierarchy_shape(n, chains, parent)}', n, got, want))
+    return out
+
+
+def tiny_hierarchy_grammar(tag, chains):
+    lines = [f'@@grammar :: {tag}', 'start = { ' + ' | '.join(f'r{i}' for i in range(len(chains))) + ' }* $ ;']
+    for i, (_, c) in enumerate(chains):
+        lines.append(f"r{i}::{'::'.join(c)} = '{i}' x:/[a-z]+/ ;")
+    return '\n'.join(lines) + '\n'
+
+
+def hierarchy_signatures_of(chains):
+    tag = f'{RUN}H{next(_seq)}x'
+    text = tiny_hierarchy_grammar(tag, chains)
+    src = tatsu.to_python_model(text, name=tag)
+    mod = load_model_module(src, f'verif_c07_model_{tag}')
+    return text, {f[0] for f in hierarchy_failures(vars(mod), [(f'r{i}', c) for i, (_, c) in enumerate(chains)])}
+
+
+def shrink_hierarchy(chains, sig):
+    """greedy: drop chains, drop the first / last name of a chain, while a class of the same shape fails the same way;
+    returns (grammar text, chains) of a grammar made of one-token rules, or None when the failure needs more than chains"""
+    def fails(cs):
+        try:
+            return sig in hierarchy_signatures_of(cs)[1]
+        except Exception:                                   # noqa: BLE001
+            return False
+    cs = [(r, list(c)) for r, c in chains]
+    if not fails(cs):
+        return None
+    changed = True
+    while changed:
+        changed = False
+        for i in range(len(cs)):
+            cands = [cs[:i] + cs[i + 1:]]
+            if len(cs[i][1]) > 1:
+                cands.append(cs[:i] + [(cs[i][0], cs[i][1][1:])] + cs[i + 1:])
+                cands.append(cs[:i] + [(cs[i][0], cs[i][1][:-1])] + cs[i + 1:])
+            for cand in cands:
+                if cand and fails(cand):
+                    cs, changed = cand, True
+                    break
+            if changed:
+                break
+    return hierarchy_signatures_of(cs)[0], cs
+
+
+def drop_inherited(canon, inherited):
+    """canonical tree of generated-class nodes without the None-valued dataclass fields that a class inherits from the
+    class of another rule (inherited(class name) -> names)"""
+    if isinstance(canon, list) and canon and canon[0] == 'node':
+        _, cls, mro, attrs, ast = canon
+        skip = inherited(cls)
+        attrs = {k: drop_inherited(x, inherited) for k, x in attrs.items() if not (k in skip and x == ['NoneType', None])}
+        return ['node', cls, mro, attrs, drop_inherited(ast, inherited)]
+    if isinstance(canon, dict):
+        return {k: drop_inherited(x, inherited) for k, x in canon.items()}
+    if isinstance(canon, list):
+        return [drop_inherited(x, inherited) for x in canon]
+    return canon
+
+
+def without_mro(canon):
+    if isinstance(canon, list) and canon and canon[0] == 'node':
+        return ['node', canon[1], None, {k: without_mro(x) for k, x in canon[3].items()}, without_mro(canon[4])]
+    if isinstance(canon, dict):
+        return {k: without_mro(x) for k, x in canon.items()}
+    if isinstance(canon, list):
+        return [without_mro(x) for x in canon]
+    return canon
+
+
 def run_grammars(chk: Check, mr: ModelRun):
     rng = chk.rng
     ngram = 28 if chk.quick else 260
+    nforest = 16 if chk.quick else 160
     ninputs = 8 if chk.quick else 16
+    shrunk_hier: dict = {}
     tie_batch: list = []
     build_reqs: list = []
     ncases = 0
@@ -678,11 +927,13 @@ def run_grammars(chk: Check, mr: ModelRun):
             risky_plan.append(('class', cls, nm))
     for shp in RISKY_SHAPES:
         risky_plan.append(('shape', shp, shp))
-    plan = [None] * ngram + risky_plan
+    plan = [None] * ngram + ['forest'] * nforest + risky_plan
     for gi, risky in enumerate(plan):
-        gc = GrammarCase(rng, next(_seq), risky)
-        feature = f'{risky[0]}-{risky[1]}' if risky else 'plain'
-        chk.count('grammars.' + ('risky' if risky else 'main'))
+        forest = risky == 'forest'
+        risky = None if forest else risky
+        gc = GrammarCase(rng, next(_seq), risky, forest=forest)
+        feature = f'{risky[0]}-{risky[1]}' if risky else ('forest' if forest else 'plain')
+        chk.count('grammars.' + ('risky' if risky else 'forest' if forest else 'main'))
 
         groups: dict = {}
 
@@ -719,6 +970,34 @@ def run_grammars(chk: Check, mr: ModelRun):
         if risky:
             texts = FIXED_SENTENCES + texts[:3]
         reported = set()
+        # H1: the classes of the generated module have the declared bases (no parse involved)
+        hier_damaged = False
+        if not risky and genmod is not None and gc.consistent:
+            chk.count('H1.grammars')
+            chk.count('H1.declared-classes', len(gc.declared))
+            for n in gc.declared:
+                chk.count('H1.shape.' + hierarchy_shape(n, gc.chains, gc.parent))
+            for sig, n, got, want in hierarchy_failures(vars(genmod), gc.chains):
+                hier_damaged = True
+                if sig in reported:
+                    continue
+                reported.add(sig)
+                rep = {'oracle': 'H1 declared base classes of the generated model module', 'grammar': gc.text,
+                       'class': n, 'generated_ancestors': got, 'declared_ancestors': want,
+                       'chains': ['::'.join(c) for _, c in gc.chains]}
+                if sig not in shrunk_hier:
+                    shrunk_hier[sig] = shrink_hierarchy(gc.chains, sig)
+                if shrunk_hier[sig]:
+                    rep['minimal_grammar'] = shrunk_hier[sig][0]
+                    rep['minimal_chains'] = ['::'.join(c) for _, c in shrunk_hier[sig][1]]
+                chk.violation(sig, f'generated model module: class {n} has the declared ancestors {got}, the grammar '
+                                   f'declares {want} ({sig.split(":", 2)[2]})', rep)
+        if forest:
+            # synthesis is keyed by name and the first synthesis wins (D14a, subject of R1): declare every class once
+            # with its whole chain, bases first, so that the synthesized classes are the declared ones whatever rule the
+            # input reduces first
+            for n in sorted(gc.declared, key=lambda n: len(gc.ancestors(n))):
+                ModelBuilderSemantics()._default('x', '::'.join([n] + gc.ancestors(n)))
         wpool: list = []
         for text in texts:
             ncases += 1
@@ -750,7 +1029,7 @@ def run_grammars(chk: Check, mr: ModelRun):
             if plain_json(strip_conv(erase_marks(traced))) != plain_json(plain):
                 once('trace-vs-plain', 'a semantic action result changed the shape of the AST around it')
             # (2) the model tree is what the property prescribes for that derivation
-            want = expect_from_marks(traced)
+            want = expect_from_marks(traced, gc.ancestors if gc.consistent and not risky else None)
             if c2 != want:
                 once('attrs', 'node classes / MRO / attributes differ from the annotated derivation',
                      {'got': json.dumps(c2, default=str)[:1500], 'want': json.dumps(want, default=str)[:1500]})
@@ -775,13 +1054,20 @@ def run_grammars(chk: Check, mr: ModelRun):
                 except Exception as e:
                     once(f'genmodel-parse-raises-{type(e).__name__}', f'parse with the generated model raises: {e}'[:300])
                     continue
-                if strip_mro(canon_model(m3)) != strip_mro(c2):
+                c3, c2s = strip_mro(canon_model(m3)), strip_mro(c2)
+                if forest:
+                    c3 = drop_inherited(c3, gc.inherited_fields)
+                if hier_damaged:
+                    # the wrong bases have been reported by H1: compare the rest
+                    c3, c2s = without_mro(c3), without_mro(c2s)
+                if c3 != c2s:
                     once('genmodel-tree', 'generated model classes give a different tree than synthesized classes',
-                         {'generated': json.dumps(strip_mro(canon_model(m3)), default=str)[:1200],
-                          'synthesized': json.dumps(strip_mro(c2), default=str)[:1200]})
+                         {'generated': json.dumps(c3, default=str)[:1200], 'synthesized': json.dumps(c2s, default=str)[:1200]})
                 for f in check_navigation(m3, 'generated'):
                     once(f'genmodel-nav-{f}', f'navigation of the generated-class tree: {f}')
-                if not risky:
+                if not risky and not hier_damaged:
+                    # (the walker cache is keyed by the class NAME: when H1 has found a generated class whose bases
+                    # differ from the synthesized class of the same name, one walker class cannot serve both families)
                     tops = []
                     brute_nodes(m3, tops)
                     wpool += [(text, top, 'generated') for top in uniq(tops)[:1] if isinstance(top, Node)]
@@ -808,7 +1094,11 @@ def run_grammars(chk: Check, mr: ModelRun):
             chk.violation(sig, f'{risky[0]} named {risky[2]!r} ({risky[1]}): ' + '; '.join(groups[g][0] for g in sorted(groups)),
                           dict(first[1], failing_checks=sorted(groups)))
     chk.obligation('O1: model parse vs plain parse on generated annotated grammars', 'oracle',
-                   not any(not v['signature'].startswith(('corr:', 'walk-dispatch:')) for v in chk.violations))
+                   not any(not v['signature'].startswith(('corr:', 'walk-dispatch:', 'genmodel-bases:')) for v in chk.violations))
+    chk.obligation('H1: classes of the generated model module have the base classes the grammar declares (chains of '
+                   'all rules together: rule classes as bases, shared rule-less classes, chains that stop at a class '
+                   'declared elsewhere, any rule order)', 'oracle',
+                   not any(v['signature'].startswith('genmodel-bases:') for v in chk.violations))
     chk.obligation('W1: walker class / use histories: handler of every node and traversal vs the dispatch oracle',
                    'oracle', wbad == 0)
     flush_ties(chk, mr, tie_batch, 'N2')
